@@ -7,7 +7,7 @@ for d in seeded/M*; do
   n=$(basename $d)
   if [ $# -gt 0 ]; then ok=0; for p in "$@"; do case $n in $p*) ok=1;; esac; done; [ $ok = 1 ] || continue; fi
   checks=$(python3 -c "import json;print(' '.join(json.load(open('$d/meta.json'))['detected_by_checks']))")
-  git -C /repo checkout -q -- . ; git -C /repo apply $d/patch.diff || { echo "$n: patch does not apply" | tee -a $out.tmp; continue; }
+  git -C /repo checkout -q -- . ; git -C /repo apply "$PWD/$d/patch.diff" || { echo "$n: patch does not apply" | tee -a $out.tmp; continue; }
   for c in $checks; do
     s=$(date +%s); o=$(./check $c quick 2>&1); rc=$?
     v=$(echo "$o" | grep -c '^VIOLATION')
